@@ -27,16 +27,20 @@ def tla_set(xs):
     return "{" + ", ".join(json.dumps(x) if isinstance(x, str) else str(x) for x in xs) + "}"
 
 
-def gen_cfg(steps=(2,), leads=(0,), tbs=(0,), ginds=(0,), rsteps=(0,), edits=1, acts=("scalar",), focus=("expr",), sim=False, clean=False, gi0=0, rs0=0, var=0, replay=""):
+def gen_cfg(steps=(2,), leads=(0,), tbs=(0,), ginds=(0,), rsteps=(0,), edits=1, acts=("scalar",), focus=("expr",), sim=False, clean=False, gi0=0, rs0=0, var=0, replay="", seps=("sp",), props=("",), crlf0=False, core=False):
     return """SPECIFICATION Spec
 CONSTANTS
   Steps = %s
   Leads = %s
   TBs = %s
+  Seps = %s
+  Props = %s
   GInds = %s
   RSteps = %s
   GI0 = %d
   RS0 = %d
+  CRLF0 = %s
+  Core = %s
   BaseVar = %d
   MaxEdits = %d
   Acts = %s
@@ -46,7 +50,7 @@ CONSTANTS
   ReplayFile = "%s"
 INVARIANTS Inv_Consistent
 CHECK_DEADLOCK FALSE
-""" % (tla_set(steps), tla_set(leads), tla_set(tbs), tla_set(ginds), tla_set(rsteps), gi0, rs0, var, edits, tla_set(acts),
+""" % (tla_set(steps), tla_set(leads), tla_set(tbs), tla_set(seps), tla_set(props), tla_set(ginds), tla_set(rsteps), gi0, rs0, "TRUE" if crlf0 else "FALSE", "TRUE" if core else "FALSE", var, edits, tla_set(acts),
        tla_set(focus), "TRUE" if sim else "FALSE", "TRUE" if clean else "FALSE", replay)
 
 
@@ -83,7 +87,7 @@ def run_gen(ctx, jobs, par=6):
     def one(j):
         name = "layout_%s.cfg" % j["tag"]
         return j, ctx.tlc("LayoutGen", name, files={name: j["cfg"]}, workers=j.get("workers", 1), simulate=j.get("simulate"),
-                          depth=j.get("depth"), seed=j.get("seed"), timeout=3000, heap="3g", tag=j["tag"])
+                          depth=j.get("depth"), seed=j.get("seed"), timeout=3000, heap="2g", tag=j["tag"])
     cases, seen, stats = [], set(), []
     with cf.ThreadPoolExecutor(max_workers=par) as ex:
         for j, res in ex.map(one, jobs):
@@ -128,13 +132,13 @@ def run_judge(ctx, module, trace_path, prefix, slices=8):
     def one(j):
         k, fn, p, cfg, cnt = j
         name = "%s_judge_%d.cfg" % (prefix, k)
-        res = ctx.tlc(module, name, workers=1, files={fn: p, name: cfg}, timeout=3000, heap="3g", tag="judge-%d" % k)
+        res = ctx.tlc(module, name, workers=1, files={fn: p, name: cfg}, timeout=3000, heap="2g", tag="judge-%d" % k)
         done = prints(res, "DONE")
         if not done or done[0][0] != cnt:
             raise MachineryError("JUDGE slice %d consumed %s of %d trace records" % (k, done, cnt))
         return res
     out = {"VIOL": [], "DRIFT": [], "UNEXP": []}
-    with cf.ThreadPoolExecutor(max_workers=8) as ex:
+    with cf.ThreadPoolExecutor(max_workers=6) as ex:
         for res in ex.map(one, jobs):
             for t in out:
                 out[t] += prints(res, t)
@@ -157,7 +161,8 @@ WHAT = {
 def jobs_for(ctx):
     s = ctx.seed
     full = dict(steps=(1, 2, 4), leads=(0, 2), tbs=(0, 1))
-    simacts = ("scalar", "indent", "filler", "swap", "add")
+    simacts = ("scalar", "indent", "filler", "swap", "add", "crlf")
+    newdims = dict(seps=("sp", "tab"), props=("", "tag", "anc"))
     wrapacts = simacts + ("base", "wrap")
     jobs = []
     if not ctx.thorough:
@@ -169,17 +174,21 @@ def jobs_for(ctx):
         for f in ("alert", "annotations.v", "labels.v"):
             jobs.append(dict(tag="x-" + f.replace(".", ""), cfg=gen_cfg(focus=(f,), steps=(2,), leads=(0,), tbs=(0,))))
         jobs.append(dict(tag="x-small", cfg=gen_cfg(focus=("record", "for", "labels.k", "annotations.k"), steps=(2,), leads=(0,), tbs=(0,))))
+        # phase 2, one new dimension at a time (exhaustive): tab after "key:", node properties (!!str, &anchor), CR LF
+        jobs.append(dict(tag="x-tabsep", cfg=gen_cfg(focus=("expr",), steps=(2,), leads=(0,), tbs=(0,), seps=("tab",))))
+        jobs.append(dict(tag="x-props", cfg=gen_cfg(focus=("expr", "alert"), steps=(2,), leads=(0,), tbs=(0,), props=("tag", "anc"))))
+        jobs.append(dict(tag="x-crlf", cfg=gen_cfg(focus=("expr",), steps=(2,), leads=(0,), tbs=(0, 1), crlf0=True)))
         # the same with `for` / `expr` (variant 1) and `keep_firing_for` (variant 2) as the LAST key of their rule
         jobs.append(dict(tag="x-last1", cfg=gen_cfg(focus=("for", "expr"), steps=(2,), leads=(0,), tbs=(0,), var=1)))
         jobs.append(dict(tag="x-last2", cfg=gen_cfg(focus=("keep_firing_for",), steps=(2,), leads=(0,), tbs=(0,), var=2)))
         for k in range(3):
             jobs.append(dict(tag="sim%d" % k, simulate=30, depth=7, seed=s * 100 + k,
-                             cfg=gen_cfg(ginds=(0, 2, 4), rsteps=(0, 2), edits=6, acts=simacts, focus=ALL_FOCUS, sim=True, **full)))
+                             cfg=gen_cfg(ginds=(0, 2, 4), rsteps=(0, 2), edits=6, acts=simacts, focus=ALL_FOCUS, sim=True, **newdims, **full)))
         jobs.append(dict(tag="wrap", simulate=100, depth=4, seed=s * 100 + 40,
                          cfg=gen_cfg(edits=3, acts=("wrap", "base"), focus=ALL_FOCUS, sim=True)))
         for k in range(2):
             jobs.append(dict(tag="wsim%d" % k, simulate=30, depth=7, seed=s * 100 + 50 + k,
-                             cfg=gen_cfg(ginds=(0, 2), rsteps=(0, 2), edits=6, acts=wrapacts, focus=ALL_FOCUS, sim=True, **full)))
+                             cfg=gen_cfg(ginds=(0, 2), rsteps=(0, 2), edits=6, acts=wrapacts, focus=ALL_FOCUS, sim=True, **newdims, **full)))
     else:
         # exhaustive, one edit, full space: expr at every list indentation, the text fields at two of them
         for f, gs in (("expr", ((0, 0), (2, 0), (4, 2))), ("alert", ((0, 0), (2, 2))), ("annotations.v", ((0, 0), (4, 0))), ("labels.v", ((0, 0),))):
@@ -188,14 +197,20 @@ def jobs_for(ctx):
         jobs.append(dict(tag="x-small", cfg=gen_cfg(focus=("record", "for", "labels.k", "annotations.k"), **full)))
         jobs.append(dict(tag="x-last1", cfg=gen_cfg(focus=("for", "expr"), var=1, **full)))
         jobs.append(dict(tag="x-last2", cfg=gen_cfg(focus=("keep_firing_for",), var=2, **full)))
+        jobs.append(dict(tag="x-tabsep", cfg=gen_cfg(focus=("expr", "alert", "annotations.v", "labels.v"), seps=("tab",), **full)))
+        jobs.append(dict(tag="x-props-expr", cfg=gen_cfg(focus=("expr",), props=("tag", "anc"), **full)))
+        jobs.append(dict(tag="x-props-text", cfg=gen_cfg(focus=("alert", "annotations.v"), steps=(2, 4), leads=(0,), tbs=(0, 1), props=("tag", "anc"))))
+        jobs.append(dict(tag="x-crlf", cfg=gen_cfg(focus=("expr", "alert", "annotations.v"), crlf0=True, **full)))
+        jobs.append(dict(tag="x-pairs1", cfg=gen_cfg(focus=("alert", "expr", "for"), steps=(2, 4), leads=(0,), tbs=(0, 1), edits=2, core=True), workers=4))
+        jobs.append(dict(tag="x-pairs2", cfg=gen_cfg(focus=("for", "labels.v", "annotations.v"), steps=(2, 4), leads=(0,), tbs=(0, 1), edits=2, core=True), workers=4))
         for k in range(10):
-            jobs.append(dict(tag="sim%d" % k, simulate=200, depth=8, seed=s * 100 + k,
-                             cfg=gen_cfg(ginds=(0, 2, 4), rsteps=(0, 2), edits=7, acts=simacts, focus=ALL_FOCUS, sim=True, **full)))
-        jobs.append(dict(tag="wrap", simulate=1500, depth=5, seed=s * 100 + 40,
+            jobs.append(dict(tag="sim%d" % k, simulate=110, depth=8, seed=s * 100 + k,
+                             cfg=gen_cfg(ginds=(0, 2, 4), rsteps=(0, 2), edits=7, acts=simacts, focus=ALL_FOCUS, sim=True, **newdims, **full)))
+        jobs.append(dict(tag="wrap", simulate=800, depth=5, seed=s * 100 + 40,
                          cfg=gen_cfg(edits=4, acts=("wrap", "base"), focus=ALL_FOCUS, sim=True)))
         for k in range(6):
-            jobs.append(dict(tag="wsim%d" % k, simulate=150, depth=8, seed=s * 100 + 50 + k,
-                             cfg=gen_cfg(ginds=(0, 2), rsteps=(0, 2), edits=7, acts=wrapacts, focus=ALL_FOCUS, sim=True, **full)))
+            jobs.append(dict(tag="wsim%d" % k, simulate=90, depth=8, seed=s * 100 + 50 + k,
+                             cfg=gen_cfg(ginds=(0, 2), rsteps=(0, 2), edits=7, acts=wrapacts, focus=ALL_FOCUS, sim=True, **newdims, **full)))
     return jobs
 
 
@@ -208,7 +223,7 @@ def c06_usable(c):
 def run(ctx, cases_override=None):
     build_vh_overlay(ctx)
     if cases_override is None:
-        cases, gstats = run_gen(ctx, jobs_for(ctx), par=6 if not ctx.thorough else 12)
+        cases, gstats = run_gen(ctx, jobs_for(ctx), par=6 if not ctx.thorough else 8)
         cases = [c for c in cases if c06_usable(c)]
     else:
         cases, gstats = cases_override, []
@@ -216,6 +231,11 @@ def run(ctx, cases_override=None):
     for i, c in enumerate(cases):
         c["id"] = i + 1
     cpath = write_ndjson(ctx.path("c06_cases.ndjson"), cases)
+    sample = dict(cases[len(cases) // 3])
+    for c in cases:                     # the rendered text stays on disk only (memory: thorough runs hold >10^5 cases)
+        c.pop("base", None)
+        if cases_override is None:
+            c.pop("lines", None)
     tpath = ctx.path("c06_trace.ndjson")
     ctx.vh("exec-c06", cpath, tpath)
     head = json.loads(open(tpath).readline())
@@ -225,16 +245,15 @@ def run(ctx, cases_override=None):
     viols = []
     for cid, v in j["VIOL"]:
         c = cases[cid - 1]
-        viols.append({"sig": sig_of(v), "what": WHAT[v["kind"]] % v, "case": {"lay": c["lay"], "lines": c["lines"], "base": c["base"]},
+        viols.append({"sig": sig_of(v), "what": WHAT[v["kind"]] % v, "case": {"lay": c["lay"]},
                       "detail": v})
     # binding failures make the run unusable (exit 2) - unless real violations were found as well: those stand
     if j["UNEXP"] and not vlib.partition_violations(ctx.prop, viols)[1]:
         cid, u = j["UNEXP"][0]
         raise MachineryError("%d record(s) where pint did not find the rules the layout wrote (rendering bug or parser change): "
-                             "case %s %s\n%s" % (len(j["UNEXP"]), cid, json.dumps(u), "\n".join(cases[cid - 1]["lines"])))
+                             "case %s %s\n%s" % (len(j["UNEXP"]), cid, json.dumps(u), json.dumps(cases[cid - 1]["lay"])[:3000]))
     if os.environ.get("C06_DUMP"):
-        write_ndjson(os.environ["C06_DUMP"], [dict(v, id=cid, lines=cases[cid - 1]["lines"]) for cid, v in j["VIOL"]]
-                     + [dict(d, id=cid, drift=True, lines=cases[cid - 1]["lines"]) for cid, d in j["DRIFT"]])
+        write_ndjson(os.environ["C06_DUMP"], [dict(v, id=cid) for cid, v in j["VIOL"]] + [dict(d, id=cid, drift=True) for cid, d in j["DRIFT"]])
     drift = ["case %s: %s" % (cid, json.dumps(d)[:300]) for cid, d in j["DRIFT"]]
     trace_n = sum(1 for _ in open(tpath))
     nodes = diags = 0
@@ -249,8 +268,7 @@ def run(ctx, cases_override=None):
             for it in ru["items"]:
                 if it["kind"] == "scalar":
                     styles.add((it["k"], it["sc"]["style"], it["sc"]["cls"], it["sc"]["shape"]))
-    nontrivial = sum(1 for c in cases if c["lay"] != cases[0]["lay"] and len(c["lines"]) > 0)
-    sample = cases[len(cases) // 3]
+    nontrivial = sum(1 for c in cases if c["lay"] != cases[0]["lay"])
     cov = {
         "evaluations": nodes + diags,
         "distinct_nontrivial": nontrivial,
